@@ -184,8 +184,11 @@ TYPES = all_types()
 
 
 def gen_for(rng, ver, i):
-    return ObjGen(rng, ver, hostile=True, ts_max_digits=9 if i % 3 else 6, allow_empty_str=(i % 5 == 0),
-                  shuffle_keys=(i % 4 == 0), toplevel_ext=(i % 7 == 0))
+    g = ObjGen(rng, ver, hostile=True, ts_max_digits=9 if i % 3 else 6, allow_empty_str=(i % 5 == 0),
+               shuffle_keys=(i % 4 == 0), toplevel_ext=(i % 7 == 0),
+               huge_ints=("63" if ver == "2.0" and i % 2 == 0 else False))    # the 2.0 integer type is 64 bits wide: beyond what a double carries exactly
+    g.long_lists = (i % 3 == 0)
+    return g
 
 
 def wl_profiles(ctx, rng, i):
